@@ -3,9 +3,9 @@
    run; the engine (Model.Standardize) is hand-modelled and tied by correspondence (harness/checks/C14.py).
    NOT theorems (search only): idempotence, numbering independence, tautomer enumeration, neutralisation. *)
 From Coq Require Import ZArith List String Bool.
-From Model Require Import PyBase Graph PeriodicTable Standardize.
+From Model Require Import PyBase Graph PeriodicTable Standardize StandardizeMatch.
 From Gen Require Import Elements StdRules.
-From Proofs Require Import StandardizeProofs.
+From Proofs Require Import StandardizeProofs StandardizeExt StandardizeTables.
 Import ListNotations.
 Open Scope Z_scope.
 
@@ -140,3 +140,75 @@ Theorem C14_charged_patch_conserves : forall g d u ad au,
   conserved g (charged_patch g d u).
 Proof. exact charged_patch_conserves. Qed.
 Print Assumptions C14_charged_patch_conserves.
+
+(* ================= extension round ================= *)
+
+(* ---- hydrogens ---- *)
+(* explicify_hydrogens: the non-hydrogen atoms (number, element, isotope, charge, radical state, in order), the net charge
+   and the total hydrogen count (implicit + hydrogen atoms) are conserved, and no implicit hydrogen is left.
+   Hypothesis forced by the proof: every hydrogen count is known and not negative (None raises ValenceError). *)
+Theorem C14_explicify_conserves : forall g g',
+  (forall na, In na (m_atoms g) -> exists h, a_h (snd na) = Some h /\ 0 <= h) -> explicify g = Ok g' ->
+  heavy_view (m_atoms g') = heavy_view (m_atoms g) /\ total_charge g' = total_charge g /\ total_h g' = total_h g /\
+  implicit_sum (m_atoms g') = 0.
+Proof. exact explicify_conserves. Qed.
+Print Assumptions C14_explicify_conserves.
+
+(* implicify_hydrogens, for ANY valence lookup: no non-hydrogen atom is removed or changed in number, element, isotope,
+   charge or radical state.  (_partial: conservation of the total hydrogen count and implicify (explicify g) = g are tied by
+   correspondence and searched, not proved.) *)
+Theorem C14_implicify_heavy_partial : forall vlookup g g', NoDup (ids g) -> implicify vlookup g = Ok g' ->
+  heavy_view (m_atoms g') = heavy_view (m_atoms g).
+Proof. exact implicify_heavy. Qed.
+Print Assumptions C14_implicify_heavy_partial.
+
+(* ---- idempotence of the pass sequence ---- *)
+(* for ANY rule tables, matcher and hydrogen calculator: the four-pass sequence over a molecule that no left-hand side
+   matches is the identity with an empty log; so the sequence is idempotent whenever its output is matched by no left-hand side *)
+Theorem C14_passes_fixpoint : forall matches calc_h dbl sgl mtl ft g,
+  (forall stage ridx r, In r (dbl ++ sgl ++ mtl) -> matches stage ridx r g = []) ->
+  standardize_passes matches calc_h dbl sgl mtl ft g = Ok (g, [], []).
+Proof. exact passes_fixpoint. Qed.
+Print Assumptions C14_passes_fixpoint.
+
+(* ---- the whole engine inside Coq (brute-force matcher specification Model.StandardizeMatch + Model.Valence), every rule of
+        the regenerated tables on its own instantiation, variants 0 1 2 ---- *)
+(* (2) hydrogen balance: a rule that matches its valence-valid instantiation leaves the total hydrogen count unchanged through
+   standardize()'s pass sequence, except exactly the four listed rules (with the listed amounts); the result is valence-valid
+   except after the two listed metal pi-complex rules (the metal cation they form has no valence state) *)
+Theorem C14_table_h_balance : forall v r, In v [0; 1; 2]%nat -> In r (double_rules ++ single_rules ++ metal_rules) ->
+  let rp := report_of v r in
+  fires v r = true -> rp_valid rp = true ->
+  rp_ok rp = true /\
+  (rp_dh rp = 0 \/ In (r_name r, rp_dh rp)
+     [("[N;D1;z2;x1;+]=[N;D2;x1;z2]", -2); ("[C;D2;z2;x2;-]([N;D1,D2;z1;+])=[O;D1]", -2);
+      ("[O;D1;z1;x1;-][N;D2;z1;+]", -2); ("[C;D1;x1;z2]=[O;D1] |^1:0|", -1)]%string) /\
+  (rp_valid_after rp = true \/ In (r_name r)
+     ["[M:1]~1~2~3~4~[C:2]-5-[C:3]~1=[C:4]~2-[C:5]~3=[C:6]~4-5 |^1:1|"; "[M:1]~1~2~[C;z2:2]=[C:3]~1-[C:4]~2 |^1:3|"]%string).
+Proof. exact table_h_balance. Qed.
+Print Assumptions C14_table_h_balance.
+
+(* (3) a rule that matches its instantiation gives a result that no left-hand side matches -- and a second run of the pass
+   sequence is then the identity -- except exactly the two listed tautomer rules, whose result the listed left-hand side
+   matches again (hydroxy-azine / enol ping-pong inside one pass) *)
+Theorem C14_table_rhs_matches_no_lhs : forall v r, In v [0; 1; 2]%nat -> In r (double_rules ++ single_rules ++ metal_rules) ->
+  fires v r = true ->
+  (exists g1 log fixed, bf_passes (vinstantiate v r) = Ok (g1, log, fixed) /\ lhs_hits g1 = [] /\ bf_passes g1 = Ok (g1, [], [])) \/
+  In (r_name r, rp_lhs_after (report_of v r))
+     [("[O,S,N;D1;z2;x0]=[C;D3;r6]1[N;D2;z1][A;z2]-,=[A;z2][A;z2]-,=[A;z2]1", ["[N;z2]=[C;D2,D3;z2]-[O,S;D1]"]);
+      ("[O,S,N;D1;z2;x0]=[C;D3;r6]1[N;D2;z2]=[A;z2][A;z2]-,=[A;z2][C;D2,D3;z1]1", ["[O;D1;x0;z1]-[C;D3;z2;x2](-[O,N])=C"])]%string.
+Proof. exact table_rhs_matches_no_lhs. Qed.
+Print Assumptions C14_table_rhs_matches_no_lhs.
+
+(* the exception lists are exact (every listed rule occurs with the listed amount / left-hand side), the rules changing the
+   net charge are exactly the five unbalanced ones, and the sweeps are not vacuous: at least 90 rules match their own
+   instantiation, at least 30 of them on a valence-valid one *)
+Theorem C14_table_exceptions_exact :
+  fst (fst (fst (fst (fst (fst (table_summary 0)))))) = h_exceptions /\
+  snd (fst (fst (fst (fst (fst (table_summary 1)))))) = lhs_exceptions /\
+  snd (fst (fst (fst (table_summary 0)))) = invalid_after_exceptions /\
+  map fst (snd (fst (fst (fst (fst (table_summary 0)))))) = unbalanced_names /\
+  (90 <=? List.length (filter (fires 0) table_rules))%nat = true /\
+  (30 <=? List.length (filter (fun r => fires 0 r && rp_valid (report_of 0 r)) table_rules))%nat = true.
+Proof. exact table_exact. Qed.
+Print Assumptions C14_table_exceptions_exact.
